@@ -98,6 +98,11 @@ def build_corpus(tier, rng):
             else:
                 tw.attr_delims = [[1], [2], [0, 2, 1]][j % 3]
             items.append(("attr-forms", tw))
+    # every option of the other derives around `disabled` (before / after it, one list / several), with and without payloads
+    for it in G.foreign_option_items(rng, 60 if thorough else 16, allow_transparent=False, tag="O"):
+        items.append(("foreign-options", it))
+    for it in G.foreign_option_items(rng, 40 if thorough else 10, unit_only=True, allow_default=False, tag="U"):
+        items.append(("foreign-options", it))
     G.resolve_names(ID, [it for _, it in items])
     items = [(f_, i_) for f_, i_ in items if not getattr(i_, "_lost_variants", False)]     # (only when the generator probe is unavailable)
     nth_def = [0]
